@@ -34,6 +34,10 @@ def run(ctx):
     r2(ctx, facts)
     r3(ctx, facts)
     r4(ctx, facts)
+    # the dynamic level travels with the event through buffer growth and into the backtrace ring (shared with C03)
+    from rules import c03
+    from rules.c09 import Renamed
+    c03.transit_event_transfer(Renamed(ctx, "C03.R4t", "C16.R4t"), facts, "A", "C03.R4")
 
 
 def enum_in(n, prefix):
@@ -207,6 +211,16 @@ def r3(ctx, facts):
     ok = bool(refresh) and any(is_call(x, r"std::vector<quill::Filter \*.*>::push_back$") for x in walk(refresh[0])) and \
         not [x for x in walk(refresh[0].get("body")) if x["k"] in ("BreakStmt", "ReturnStmt", "ContinueStmt")]
     clear = npos(f, [c for c in f.calls(r"std::vector<quill::Filter \*.*>::clear$")])
+    # R3h: the 'filters were added' flag is cleared only where the local list has just been rebuilt
+    clears_flag = [n for n in f.walk() if (atomic_op(n) or {}).get("kind") in ("store", "rmw") and is_this_field(atomic_op(n)["obj"], "_new_filter") and
+                   (const_val(atomic_op(n).get("value")) in (0, False) or atomic_op(n).get("op") in ("exchange", "clear", "fetch_and"))]
+    rebuild = npos(f, [c for c in f.calls(r"std::vector<.*>::(push_back|emplace_back|assign|insert|operator=)$") if is_this_field(call_obj(c) if c["k"] != "CXXOperatorCallExpr" else c["args"][0], "_local_filters")])
+    cf = npos(f, clears_flag)
+    lf_clear = npos(f, [c for c in f.calls(r"std::vector<.*>::clear$") if is_this_field(call_obj(c), "_local_filters")])
+    ok_h = bool(cf) and bool(lf_clear) and all(g.dominates(lf_clear, p) for p in cf) and not g.exists_path(cf, lf_clear + rebuild)
+    ctx.ob("C16.R3h", "Sink::apply_all_filters:flag-cleared-after-reload", ok_h,
+           "the 'new filter' flag is cleared only after the sink's local filter list was rebuilt on that path (a statement turned away "
+           "by the level threshold must not consume the flag, or the added filter is never loaded)", fn=f)
     ctx.ob("C16.R3c", "Sink::apply_all_filters:refresh-copies-all", ok and bool(clear),
            "when filters were added the sink's local list is rebuilt from all attached filters", fn=f)
     # _write_log_statement: same sink for filter, override formatter and write
